@@ -68,7 +68,40 @@ DL_RUN = {"harness": "hdeadline", "driver": "dldrv", "fields": ["st", "post", "o
 STOP_RUN = {"harness": "hstop", "driver": "stopdrv", "fields": ["stop", "opens", "closes"] + ["c%d" % i for i in range(64)],
             "custom": retry_run, "quick": {"n": 30, "shards": 12}, "thorough": {"n": 120, "shards": 24}}
 
+WSCB_RUN = {"harness": "hwscb", "driver": "wscbdrv", "fields": ["log", "run", "ret", "sent", "wire", "ql", "rets", "groups", "whole"],
+            "custom": retry_run, "quick": {"n": 40, "shards": 12}, "thorough": {"n": 150, "shards": 24}}
+
 PROPS = {
+    "C14": {
+        "manifest": {
+            "text": "Lean theorems on (A) the composition of the per-message receive steps with the connection's job queue (the JobQ "
+                    "transition system itself): callback log = prefix of open . msg0..msgk . close, complete when the drainer is "
+                    "idle, open first, close exactly once and last, nothing twice, single drainer; (B) the writer model (direct "
+                    "mode and the asynchronous send queue with its drainer, bound, failures and CloseAndClean): for every "
+                    "interleaving the conn's frame stream is a prefix of the concatenation of the whole frame groups of the calls "
+                    "that returned nil, each at most once, exactly that concatenation when idle and alive; tied to the code by "
+                    "gated callbacks / gated conn writes on real websocket.Conn objects and an end-to-end tier over the four "
+                    "upgrade paths",
+            "note": "proof on the model, partial: the upgrade paths other than the poller-driven one are sampled over real "
+                    "sockets, not modelled (except the transferred path's open race, refuted by "
+                    "c14_transfer_open_race_counterexample = known finding C14-transfer-open-race); the conn below the ws layer "
+                    "accepts a frame whole or fails (C01); the bounded send queue's partial-message defect is repaired by a fix: "
+                    "commit (c14_bounded_queue_partial_counterexample documents the pinned behaviour)",
+            "technique": "Lean 4 proof (invariants over two transition systems, one of them an instance of JobQ) + differential "
+                         "correspondence with gates at the model's step granularity + sampled real-socket runs"},
+        "lean": ["NbioVerif.Properties.C14"], "drivers": ["wscbdrv"], "harness": ["hwscb"],
+        "runs": [WSCB_RUN],
+        "oracles": ["c14-"],
+        "rule": "cb case = schedule of upgrade / message arrival / close / callback release on the real poller-driven path; wq case "
+                "= schedule of WriteMessage calls (1-5 fragments, boundary lengths), drainer conn writes (ok/error) and "
+                "CloseAndClean with queue bound 0/2/3/5; wd case = 2-8 concurrent direct-mode callers with an optional failing "
+                "conn write; e2e case = upgrade path x send mode x (messages, writers, size); distinct by hash of the schedule "
+                "string and outcome; non-trivial iff >= 2 submitters (calls / messages)",
+        "assumptions": ["Parse is called by one goroutine at a time per connection (poller or the single read task: C02)",
+                        "nbio.Conn.Execute/MustExecute behave as JobQ (C05 correspondence)",
+                        "a client does not send frames before it has received the 101 response",
+                        "scheduling-dependent observations are re-run 3 times before they are reported"],
+    },
     "C18": {
         "manifest": {
             "text": "Lean theorems on the Stop model (M4+Stop: addConn's three separate statements, dials, transferred conns, closes "
